@@ -55,6 +55,80 @@ validate by accident):
   value; after the call is recorded, `Env.reenter k` (default: nothing) lists sibling methods that the callee
   calls back synchronously on `self` before it returns (the transport calling `pauseProducing()` from inside
   `send_record`) — they are interpreted, with the remaining fuel, on the heap as it is at that moment.
+
+[deepConn] additions for the Dilation Connector (`_dilation/connector.py`; `WV.Gen.PyIRConn`), all additive:
+* a module-level singleton (`LEADER`, `FOLLOWER` of roles.py: `object()`) is the value `Val.obj NAME []`; `a is NAME` is
+  `isConst a NAME` (identity = same name; any other field-less object or scalar is a different object).
+* `[f(x) for x in e]` with a pure external `f` is `mapExt f e` (`e` a list/tuple).
+* `forInS` is `forIn` whose source may also be a `set` (the `EmptyableSet` subclass included): the elements are visited
+  in the order of the representing list.  CPython's order is unspecified; theorems quantify over every representation, hence
+  over every order.  Snapshot semantics as for `forIn` (the translator refuses bodies that mutate the iterated attribute).
+* `emitVT x recv meth args` is `emitV` whose return value `env.rets k` is bound to `x`; `appendLocal x e` is `x.append(e)` on a
+  local list: together they express `x = [c.meth() for c in self._set]` (a comprehension with effects) as a loop.
+* `emitGT x f args` records the call of an effectful module-level function (`deferLater`) like `emitG "$g" f args`; its value is `env.rets k`.
+
+[deepL2] additions for the L2 connection layer (`_dilation/connection.py`; `WV.Gen.PyIRL2`), all additive:
+* `slice a lo hi` is `a[lo:hi]` on bytes with non-negative int bounds (CPython clamps to the length; no negative
+  indices, no step); `startsWith` is `bytes.startswith`; `byteIn x b` is `b"<x>" in b` for a one-byte constant needle;
+  `ge` is `>=`.
+* a `yield e` of a generator is translated (by `extract_pyir_l2`) as the recorded call `$gen.yield(e)`: the consumer of
+  the generator is a collaborator that receives the token; `Env.raises` = the consumer abandons the generator there
+  (CPython: the frame is simply never resumed; what the generator has done so far persists).
+* `x = self.<obj>.<meth>(args…)` is `emitToA`: the call is recorded like any collaborator call (`Env.raises` applies), its
+  value — or the exception it raises — is `Env.retf k obj meth args`, a function of the call's position AND its evaluated
+  arguments (the ideal Noise: `encrypt`/`decrypt` with the nonce counted by the position).
+* an Automat input on `self` whose return value is used (`token = self.parse()`) is a sibling call `callSelf`; the
+  method table the theorems run it with maps the input's name to a dispatcher built from the GENERATED transition
+  table (`WV.Proofs.PyIRL2.inputBody`: new state first, then the outputs in order, `collector=first`).
+
+[deepMgr] additions for the Dilation Manager / TrafficTimer (`_dilation/manager.py`; `WV.Gen.PyIRMgr`), all additive:
+* `gt` (`a > b` on two ints or two strs, code-point order), `dictLit` (a dict literal / the `**kwargs` dict of a call, constant
+  str keys), `setItemL` (`<local>[k] = v`).  A `**fields` parameter is an ordinary last parameter holding the dict; a
+  nested `def` that uses nothing but `self` and its own parameters is a method of its own named `<outer>.<inner>` and the
+  local holds `closure("<outer>.<inner>")` (Env); `LEADER`/`FOLLOWER` are `Val.obj "_Role" [.str which]`.
+
+[deepRC] additions for the RendezvousConnector glue and Input (`WV.Gen.PyIRRC`), all additive:
+* `tryCatchAll body x handler` is `try: … except Exception [as x]: …`: it catches every exception class except the
+  interpreter's pseudo-exceptions (`Unsupported`, `OutOfFuel`, `$break`, `$continue`); a bare `raise` inside the handler
+  is `.raise "$reraise" []`, turned back into the caught class when it leaves the handler ('run the handler, then
+  re-raise the same exception').  State changes and recorded calls of body and handler persist.
+* `**kwargs` of a method is an ordinary last parameter holding a `dict` with `str` keys; `setItemLK` is `kwargs[k] = v`;
+  `setAddL` is `<local set>.add(e)`; a `for` may run over a local list that its body does not touch.
+* `iterSet e` is the list of elements a `for` over the set `e` visits: the insertion order of the IR's representation.
+  CPython's order is unspecified; a theorem about such a loop quantifies over every heap, hence over every order.
+  `popLast` is `self.<a>.pop()` on a list.
+* `d = defer.maybeDeferred(self._X.meth, args…)` is the recorded call `self._X.meth(args…)` (maybeDeferred calls it at
+  once) whose value (`Env.rets k`) is the Deferred; `d.addCallback(f)` / `addErrback` / `addBoth` are recorded with
+  `emitV` (receiver first); the callback is a *named continuation*: `self._m` is `method("_m")`, `log.err` is
+  `function("log.err")`, `lambda _: self._X.meth(locals…)` is `callback("_X", "meth", locals…)`.  The Deferred
+  machinery itself (when and in which order callbacks fire) stays outside the IR: it is the models' environment.
+  Narrowing: a synchronous exception of the wrapped call propagates here, whereas `maybeDeferred` would turn it into a
+  failed Deferred; `Env.raises` on such a call is only an observation device (what has been done before the call).
+
+[deepSub] additions for subchannels (`_dilation/subchannel.py`, `manager.py`; `WV.Gen.PyIRSub`), all additive:
+* `delAttr a` is `del self.<a>`: the attribute is gone, a later read raises AttributeError (as `readAttr` does).
+* `appendAtD a k v` is `self.<a>[k].append(v)` on a `defaultdict(deque)` (the translator emits it only for an attribute
+  the constructor creates as `defaultdict(deque)`): a missing key is inserted last with an empty deque, then appended to.
+* `emitVTo x recv meth args` is `x = <value>.<meth>(args…)` (`p = factory.buildProtocol(addr)`): recorded with the
+  receiver as first argument like `emitV`, the value is `Env.rets k`; no re-entrancy.
+* `popleftLocal pat x` is `pat = <local>.popleft()` for a deque held in a local (`pending` in `register`).
+
+[deepTr] additions for the transit `Connection` (`transit.py`; `WV.Gen.PyIRTr`), all additive:
+* `sliceT a lo hi` is `a[lo:hi]` on bytes with absent or non-negative int bounds (`(b.take hi).drop lo`); `startswithT` on
+  bytes; `geT` is `>=` on ints.
+* `tryCatchAllT` is `try: … except Exception [as x]:` — it catches every exception class except the interpreter's
+  pseudo-exceptions (`Unsupported`, `OutOfFuel`, `$break`, `$continue`); `raiseVT e` raises the class of the exception
+  object `e` evaluates to: the bare `raise` inside such a handler is `raiseVT (var x)` (the translator emits it only there,
+  with the handler's name, and refuses handlers that re-bind it), `raise self.state` is `raiseVT (attr state)`.
+* `emitToFT x obj meth args` is `x = self.<obj>.<meth>(args…)` where the value returned is `Env.retOfT obj meth args` — a
+  function of what is called with what (`emitTo` numbers the calls instead); `None` receiver = AttributeError.  A
+  collaborator call in the argument list of another call (`self.transport.write(self.owner._send_this())`) is hoisted
+  into such a statement, behind an explicit `if self.<obj> is None: raise AttributeError` for the outer receiver
+  (CPython looks `self.transport.write` up before it evaluates the argument).
+* the translator folds constant int arithmetic (`2**(8*24)`), reads module-level / class-level int constants
+  (`TIMEOUT`, `SecretBox.NONCE_SIZE`) from the working tree, writes the idioms `int(hexlify(X), 16)` and
+  `unhexlify(f"{E:0Nx}")` as the external functions `be_decode` / `be_fixed`, and `self.<box>.encrypt/decrypt(…)` on an
+  attribute that holds a `SecretBox` as the external (pure) functions `SecretBox.encrypt/decrypt` (the ideal AEAD of `Env`).
 -/
 namespace WV.PyIR
 
@@ -244,6 +318,28 @@ inductive Expr where
   | setUnion (a b : Expr)                       -- `a.union(b)`
   | setEq (a b : Expr)                          -- `set(a) == set(b)` (operands: sets or deques/lists)
   -- [dil] end
+  -- [deepConn] begin
+  | isConst (a : Expr) (name : String)          -- `a is NAME` for a module-level singleton `NAME = object()`
+  | mapExt (f : String) (src : Expr)            -- `[f(x) for x in src]`, `f` external and pure
+  -- [deepConn] end
+  -- [deepL2] begin
+  | slice (a : Expr) (lo hi : Option Expr)      -- `a[lo:hi]` on bytes, bounds are non-negative ints (absent = open)
+  | startsWith (a b : Expr)                     -- `a.startswith(b)` on bytes
+  | byteIn (x : Nat) (b : Expr)                 -- `b"<x>" in b`: a one-byte needle in a bytes value
+  | ge (a b : Expr)                             -- `a >= b` (ints of either sign)
+  -- [deepL2] end
+  -- [deepMgr] begin
+  | gt (a b : Expr)                             -- `a > b` on two ints or two strs (code-point order)
+  | dictLit (keys : List String) (vals : List Expr)   -- `{"k1": e1, …}` / the `**kwargs` dict of `f(k1=e1, …)`: constant str keys
+  -- [deepMgr] end
+  -- [deepRC] begin
+  | iterSet (a : Expr)                          -- the elements of a set as the list a `for` visits (only as a loop source)
+  -- [deepRC] end
+  -- [deepTr] begin
+  | sliceT (a : Expr) (lo hi : Option Expr)      -- `a[lo:hi]` on bytes; bounds are non-negative ints or absent
+  | startswithT (a b : Expr)                     -- `a.startswith(b)` on bytes
+  | geT (a b : Expr)                            -- `a >= b` (ints of either sign)
+  -- [deepTr] end
   deriving Inhabited
 
 inductive ForPat where
@@ -293,6 +389,35 @@ inductive Stmt where
   | brk
   | cont
   -- [dil] end
+  -- [deepConn] begin
+  | forInS (p : ForPat) (src : Expr) (body : List Stmt)   -- `for p in src:` where `src` may be a set (any order: see header)
+  | emitVT (x : String) (recv : Expr) (meth : String) (args : List Expr)   -- `x = <value>.<meth>(args…)`: recorded like `emitV`; value `env.rets k`
+  | appendLocal (x : String) (e : Expr)                   -- `x.append(e)` on a local list
+  | emitGT (x : String) (f : String) (args : List Expr)   -- `x = f(args…)`, an effectful module-level function: recorded; value `env.rets k`
+  -- [deepConn] end
+  -- [deepL2] begin
+  | emitToA (x : String) (obj meth : String) (args : List Expr)   -- `x = self.<obj>.<meth>(args…)`: recorded; value or exception = `env.retf k obj meth args`
+  -- [deepL2] end
+  -- [deepMgr] begin
+  | setItemL (x : String) (k v : Expr)                    -- `<local>[k] = v` on a local that holds a dict
+  -- [deepMgr] end
+  -- [deepRC] begin
+  | tryCatchAll (body : List Stmt) (x : Option String) (handler : List Stmt)   -- `try: … except Exception [as x]: …`; a bare `raise` in the handler is `.raise "$reraise" []`
+  | setItemLK (x : String) (k v : Expr)                    -- `<local>[k] = v` (the local holds a dict, e.g. `**kwargs`)
+  | setAddL (x : String) (e : Expr)                       -- `<local>.add(e)` (the local holds a set)
+  | popLast (x : Option String) (a : String)              -- `[x =] self.<a>.pop()` on a list (IndexError)
+  -- [deepRC] end
+  -- [deepSub] begin
+  | delAttr (a : String)                                  -- `del self.<a>` (AttributeError when there is no such attribute)
+  | appendAtD (a : String) (k v : Expr)                   -- `self.<a>[k].append(v)` on a `defaultdict(deque)`: a missing key is created (last) first
+  | emitVTo (x : String) (recv : Expr) (meth : String) (args : List Expr)   -- `x = <value>.<meth>(args…)`: recorded like `emitV`; the value is `env.rets k`
+  | popleftLocal (p : ForPat) (x : String)                -- `pat = <local x>.popleft()`: a deque held in a local (IndexError when empty)
+  -- [deepSub] end
+  -- [deepTr] begin
+  | tryCatchAllT (body : List Stmt) (x : Option String) (handler : List Stmt)   -- `try: … except Exception [as x]: …`
+  | raiseVT (e : Expr)                                     -- `raise <value>`: bare `raise` inside `except Exception as x:` (as `raiseVT (var x)`), `raise self.state`
+  | emitToFT (x : String) (obj meth : String) (args : List Expr)   -- `x = self.<obj>.<meth>(args…)`: recorded; the value is `env.retOfT obj meth args`
+  -- [deepTr] end
   deriving Inhabited
 
 /-! ## state -/
@@ -338,6 +463,12 @@ structure Env where
   -- [dil] begin
   reenter : Nat → List (String × List Val) := fun _ => []   -- sibling methods the k-th recorded call (emitA/emitV) calls back on `self` before it returns
   -- [dil] end
+  -- [deepL2] begin
+  retf : Nat → String → String → List Val → Res Val := fun _ _ _ _ => .ok .none   -- what the k-th recorded call (`emitToA`) returns or raises, as a function of receiver, method and evaluated arguments
+  -- [deepL2] end
+  -- [deepTr] begin
+  retOfT : String → String → List Val → Val := fun _ _ _ => .none   -- what a recorded call returns, as a function of receiver attribute, method, arguments (only read by `emitToFT`)
+  -- [deepTr] end
 
 abbrev MethodTable := String → Option (List String × List Stmt)
 
@@ -513,6 +644,94 @@ def valGetD (d k dflt : Val) : Res Val :=
   | _ => unsupported
 -- [dil] end
 
+-- [deepConn] begin
+/-- `v is NAME` for a module-level singleton, represented as `Val.obj NAME []` -/
+def valIsConst (v : Val) (name : String) : Res Bool :=
+  match v with
+  | .obj c [] => .ok (c == name)
+  | .none | .bool _ | .int _ | .str _ | .bytes _ | .nint _ | .ref _ _ => .ok false
+  | _ => unsupported
+
+/-- `[f(x) for x in vs]` -/
+def mapExtL (ext : String → List Val → Res Val) (f : String) : List Val → Res (List Val)
+  | [] => .ok []
+  | v :: r => do
+    let w ← ext f [v]
+    let ws ← mapExtL ext f r
+    pure (w :: ws)
+
+/-- the elements a `for` loop over a list, tuple or set visits -/
+def iterElemsS : Val → Res (List Val)
+  | .list vs | .tuple vs | .set vs => .ok vs
+  | .none | .bool _ | .int _ => .exc "TypeError"
+  | _ => unsupported
+-- [deepConn] end
+
+-- [deepL2] begin
+/-- `b[lo:hi]` on bytes with non-negative bounds: CPython clamps both to `len(b)`; `hi < lo` gives `b""` -/
+def valSlice (v : Val) (lo hi : Option Val) : Res Val :=
+  match v, lo, hi with
+  | .bytes b, Option.none, Option.none => .ok (.bytes b)
+  | .bytes b, some (.int l), Option.none => .ok (.bytes (b.drop l))
+  | .bytes b, Option.none, some (.int h) => .ok (.bytes (b.take h))
+  | .bytes b, some (.int l), some (.int h) => .ok (.bytes ((b.take h).drop l))
+  | .none, _, _ | .bool _, _, _ | .int _, _, _ => .exc "TypeError"
+  | _, _, _ => unsupported
+
+/-- `a.startswith(b)` on bytes -/
+def valStartsWith (a b : Val) : Res Val :=
+  match a, b with
+  | .bytes x, .bytes y => .ok (.bool (y.isPrefixOf x))
+  | .none, _ | .bool _, _ | .int _, _ => .exc "AttributeError"
+  | _, _ => unsupported
+
+/-- `b"<x>" in v` -/
+def valByteIn (x : Nat) (v : Val) : Res Val :=
+  match v with
+  | .bytes b => .ok (.bool (b.contains x))
+  | .none | .bool _ | .int _ => .exc "TypeError"
+  | _ => unsupported
+-- [deepL2] end
+
+-- [deepMgr] begin
+/-- `a > b`: two ints, or two strs compared by code points (Lean's `String` order is that order) -/
+def valGt (a b : Val) : Res Bool :=
+  match a, b with
+  | .int x, .int y => .ok (decide (y < x))
+  | .str x, .str y => .ok (decide (y < x))
+  | _, _ => unsupported
+
+/-- the dict of a literal with constant str keys (the translator refuses duplicate keys) -/
+def mkDictLit (ks : List String) (vs : List Val) : Res Val :=
+  if ks.length = vs.length then .ok (.dict ((ks.map Val.str).zip vs)) else unsupported
+-- [deepMgr] end
+
+-- [deepTr] begin
+/-- `a[lo:hi]` on bytes with non-negative bounds: `b[lo:hi] = (b.take hi).drop lo` -/
+def valSliceT (a : Val) (lo hi : Option Val) : Res Val :=
+  match a with
+  | .bytes b =>
+    match lo, hi with
+    | Option.none, Option.none => .ok (.bytes b)
+    | some (.int l), Option.none => .ok (.bytes (b.drop l))
+    | Option.none, some (.int h) => .ok (.bytes (b.take h))
+    | some (.int l), some (.int h) => .ok (.bytes ((b.take h).drop l))
+    | _, _ => unsupported
+  | .none | .bool _ | .int _ | .nint _ => .exc "TypeError"
+  | _ => unsupported
+
+/-- `a.startswith(b)` on bytes -/
+def valStartswithT (a b : Val) : Res Val :=
+  match a, b with
+  | .bytes x, .bytes y => .ok (.bool (y.isPrefixOf x))
+  | .none, _ => .exc "AttributeError"
+  | _, _ => unsupported
+
+/-- the pseudo-exceptions of the interpreter are not Python exceptions: no `except` clause catches them -/
+def isPseudoExcT (c : String) : Bool :=
+  c == "Unsupported" || c == "OutOfFuel" || c == "$break" || c == "$continue"
+-- [deepTr] end
+
 mutual
 def evalE (env : Env) (σ : St) : Expr → Res Val
   | .none => .ok .none
@@ -670,6 +889,86 @@ def evalE (env : Env) (σ : St) : Expr → Res Val
       pure (.bool (r1 && r2)))
     else .exc "TypeError"
   -- [dil] end
+  -- [deepConn] begin
+  | .isConst a name => do
+    let va ← evalE env σ a
+    let r ← valIsConst va name
+    pure (.bool r)
+  | .mapExt f src => do
+    let v ← evalE env σ src
+    let vs ← starElems v
+    let ws ← mapExtL env.ext f vs
+    pure (.list ws)
+  -- [deepConn] end
+  -- [deepL2] begin
+  | .slice a lo hi => do
+    let va ← evalE env σ a
+    let vl ← (match lo with
+      | Option.none => Res.ok Option.none
+      | some e => do
+        let v ← evalE env σ e
+        pure (some v))
+    let vh ← (match hi with
+      | Option.none => Res.ok Option.none
+      | some e => do
+        let v ← evalE env σ e
+        pure (some v))
+    valSlice va vl vh
+  | .startsWith a b => do
+    let va ← evalE env σ a
+    let vb ← evalE env σ b
+    valStartsWith va vb
+  | .byteIn x b => do
+    let vb ← evalE env σ b
+    valByteIn x vb
+  | .ge a b => do
+    let va ← evalE env σ a
+    let vb ← evalE env σ b
+    let r ← valLe vb va
+    pure (.bool r)
+  -- [deepL2] end
+  -- [deepMgr] begin
+  | .gt a b => do
+    let va ← evalE env σ a
+    let vb ← evalE env σ b
+    let r ← valGt va vb
+    pure (.bool r)
+  | .dictLit ks es => do
+    let vs ← evalEs env σ es
+    mkDictLit ks vs
+  -- [deepMgr] end
+  -- [deepRC] begin
+  | .iterSet a => do
+    let va ← evalE env σ a
+    match va with
+    | .set vs | .list vs | .tuple vs => pure (.list vs)
+    | .none | .bool _ | .int _ => .exc "TypeError"
+    | _ => unsupported
+  -- [deepRC] end
+  -- [deepTr] begin
+  | .sliceT a lo hi => do
+    let va ← evalE env σ a
+    let vlo ← (match lo with
+      | Option.none => Res.ok Option.none
+      | some e => do
+        let v ← evalE env σ e
+        pure (some v))
+    let vhi ← (match hi with
+      | Option.none => Res.ok Option.none
+      | some e => do
+        let v ← evalE env σ e
+        pure (some v))
+    valSliceT va vlo vhi
+  | .startswithT a b => do
+    let va ← evalE env σ a
+    let vb ← evalE env σ b
+    valStartswithT va vb
+  | .geT a b => do
+    let va ← evalE env σ a
+    let vb ← evalE env σ b
+    let r ← valLe vb va
+    pure (.bool r)
+  -- [deepTr] end
 def evalEs (env : Env) (σ : St) : List Expr → Res (List Val)
   | [] => .ok []
   | e :: r => do
@@ -775,6 +1074,18 @@ def doEmitR (env : Env) (self : SelfCall) (σ : St) (obj meth : String) (vs : Li
   | (σ1, .norm) => runReenter self (env.reenter σ.calls.length) σ1
   | r => r
 -- [dil] end
+
+-- [deepRC] begin
+/-- exception names that are artefacts of the interpreter, not Python exceptions: `except Exception` never catches them -/
+def isPseudoExc (c : String) : Bool :=
+  c == "Unsupported" || c == "OutOfFuel" || c == "$break" || c == "$continue" || c == "$reraise"
+
+/-- what leaves a handler of `tryCatchAll` that was entered for exception `c`: a bare `raise` re-raises `c` -/
+def reraiseAs (c : String) (r : St × Flow) : St × Flow :=
+  match r with
+  | (σ, .exc c2) => if c2 = "$reraise" then (σ, .exc c) else (σ, .exc c2)
+  | r => r
+-- [deepRC] end
 
 mutual
 def execS (env : Env) (self : SelfCall) (fuel : Nat) : Stmt → St → St × Flow
@@ -982,6 +1293,159 @@ def execS (env : Env) (self : SelfCall) (fuel : Nat) : Stmt → St → St × Flo
   | .brk, σ => (σ, .exc "$break")
   | .cont, σ => (σ, .exc "$continue")
   -- [dil] end
+  -- [deepConn] begin
+  | .forInS p src body, σ =>
+    withVal σ (evalE env σ src) fun v =>
+    withVal σ (iterElemsS v) fun vs => forLoop p (execB env self fuel body) vs σ
+  | .emitVT x recv meth args, σ =>
+    withVal σ (evalE env σ recv) fun rv =>
+      match rv with
+      | .none => (σ, .exc "AttributeError")
+      | _ => withVal σ (evalEs env σ args) fun vs =>
+        match doEmitR env self σ "$v" meth (rv :: vs) with
+        | (σ1, .norm) => (σ1.setLocal x (env.rets σ.calls.length), .norm)
+        | r => r
+  | .appendLocal x e, σ =>
+    withVal σ (readVar σ x) fun d =>
+    withVal σ (evalE env σ e) fun v =>
+      match d with
+      | .list vs => (σ.setLocal x (.list (vs ++ [v])), .norm)
+      | .none | .bool _ | .int _ => (σ, .exc "AttributeError")
+      | _ => (σ, .exc "Unsupported")
+  | .emitGT x f args, σ =>
+    withVal σ (evalEs env σ args) fun vs =>
+      match doEmit env σ "$g" f vs with
+      | (σ1, .norm) => (σ1.setLocal x (env.rets σ.calls.length), .norm)
+      | r => r
+  -- [deepConn] end
+  -- [deepL2] begin
+  | .emitToA x obj meth args, σ =>
+    withVal σ (readAttr σ obj) fun recv =>
+      match recv with
+      | .none => (σ, .exc "AttributeError")
+      | _ => withVal σ (evalEs env σ args) fun vs =>
+        match doEmit env σ obj meth vs with
+        | (σ1, .norm) =>
+          (match env.retf σ.calls.length obj meth vs with
+           | .ok v => (σ1.setLocal x v, .norm)
+           | .exc c => (σ1, .exc c))
+        | r => r
+  -- [deepL2] end
+  -- [deepMgr] begin
+  | .setItemL x k v, σ =>
+    -- CPython evaluates the right-hand side first, then the container, then the key
+    withVal σ (evalE env σ v) fun vv =>
+    withVal σ (readVar σ x) fun d =>
+    withVal σ (evalE env σ k) fun vk =>
+      match d with
+      | .dict kvs =>
+        if vk.hashable then withVal σ (dictSet vk vv kvs) fun kvs' => (σ.setLocal x (.dict kvs'), .norm)
+        else (σ, .exc "TypeError")
+      | .none | .bool _ | .int _ => (σ, .exc "TypeError")
+      | _ => (σ, .exc "Unsupported")
+  -- [deepMgr] end
+  -- [deepRC] begin
+  | .tryCatchAll body x handler, σ =>
+    match execB env self fuel body σ with
+    | (σ1, .exc c) =>
+      if isPseudoExc c then (σ1, .exc c)
+      else reraiseAs c (execB env self fuel handler (σ1.bindOpt x (.obj c [])))
+    | r => r
+  | .setItemLK x k v, σ =>
+    -- CPython evaluates the right-hand side first, then the container, then the key
+    withVal σ (evalE env σ v) fun vv =>
+    withVal σ (readVar σ x) fun d =>
+    withVal σ (evalE env σ k) fun vk =>
+      match d with
+      | .dict kvs =>
+        if vk.hashable then withVal σ (dictSet vk vv kvs) fun kvs' => (σ.setLocal x (.dict kvs'), .norm)
+        else (σ, .exc "TypeError")
+      | .none | .bool _ | .int _ => (σ, .exc "TypeError")
+      | _ => (σ, .exc "Unsupported")
+  | .setAddL x e, σ =>
+    withVal σ (readVar σ x) fun d =>
+    withVal σ (evalE env σ e) fun v =>
+      match d with
+      | .set vs =>
+        if v.hashable then withVal σ (memKeys v vs) fun m =>
+          (σ.setLocal x (.set (if m then vs else vs ++ [v])), .norm)
+        else (σ, .exc "TypeError")
+      | .none | .bool _ | .int _ => (σ, .exc "AttributeError")
+      | _ => (σ, .exc "Unsupported")
+  | .popLast x a, σ =>
+    withVal σ (readAttr σ a) fun d =>
+      match d with
+      | .list vs =>
+        match vs.getLast? with
+        | Option.none => (σ, .exc "IndexError")
+        | some v => ((σ.setAttr a (.list vs.dropLast)).bindOpt x v, .norm)
+      | .none | .bool _ | .int _ => (σ, .exc "AttributeError")
+      | _ => (σ, .exc "Unsupported")
+  -- [deepRC] end
+  -- [deepSub] begin
+  | .delAttr a, σ =>
+    match σ.heap.get a with
+    | some _ => ({ σ with heap := σ.heap.filter (fun kv => kv.1 != a) }, .norm)   -- every binding of `a` goes
+    | Option.none => (σ, .exc "AttributeError")
+  | .appendAtD a k v, σ =>
+    -- CPython loads `self.<a>[k]` (a missing key gets an empty deque, inserted last) before it evaluates the argument
+    withVal σ (readAttr σ a) fun d =>
+    withVal σ (evalE env σ k) fun vk =>
+      match d with
+      | .dict kvs =>
+        if vk.hashable then
+          withVal σ (dictGet vk kvs) fun r =>
+            match r with
+            | some (.list l) =>
+              withVal σ (evalE env σ v) fun vv =>
+              withVal σ (dictSet vk (.list (l ++ [vv])) kvs) fun kvs' => (σ.setAttr a (.dict kvs'), .norm)
+            | Option.none =>
+              let σ0 := σ.setAttr a (.dict (kvs ++ [(vk, .list [])]))
+              withVal σ0 (evalE env σ0 v) fun vv => (σ.setAttr a (.dict (kvs ++ [(vk, .list [vv])])), .norm)
+            | some _ => (σ, .exc "Unsupported")
+        else (σ, .exc "TypeError")
+      | .none | .bool _ | .int _ => (σ, .exc "TypeError")
+      | _ => (σ, .exc "Unsupported")
+  | .emitVTo x recv meth args, σ =>
+    withVal σ (evalE env σ recv) fun rv =>
+      match rv with
+      | .none => (σ, .exc "AttributeError")
+      | _ => withVal σ (evalEs env σ args) fun vs =>
+        match doEmit env σ "$v" meth (rv :: vs) with
+        | (σ1, .norm) => (σ1.setLocal x (env.rets σ.calls.length), .norm)
+        | r => r
+  | .popleftLocal p x, σ =>
+    withVal σ (readVar σ x) fun d =>
+      match d with
+      | .list [] => (σ, .exc "IndexError")
+      | .list (v :: r) =>
+        let σp := σ.setLocal x (.list r)
+        withVal σp (bindPat σp p v) fun σ1 => (σ1, .norm)
+      | .none | .bool _ | .int _ => (σ, .exc "AttributeError")
+      | _ => (σ, .exc "Unsupported")
+  -- [deepSub] end
+  -- [deepTr] begin
+  | .tryCatchAllT body x handler, σ =>
+    match execB env self fuel body σ with
+    | (σ1, .exc c) =>
+      if isPseudoExcT c then (σ1, .exc c) else execB env self fuel handler (σ1.bindOpt x (.obj c []))
+    | r => r
+  | .raiseVT e, σ =>
+    withVal σ (evalE env σ e) fun v =>
+      match v with
+      | .obj c _ => (σ, .exc c)
+      | .none | .bool _ | .int _ | .str _ | .bytes _ => (σ, .exc "TypeError")   -- exceptions must derive from BaseException
+      | _ => (σ, .exc "Unsupported")
+  | .emitToFT x obj meth args, σ =>
+    withVal σ (readAttr σ obj) fun recv =>
+      match recv with
+      | .none => (σ, .exc "AttributeError")
+      | _ =>
+        withVal σ (evalEs env σ args) fun vs =>
+          match doEmit env σ obj meth vs with
+          | (σ1, .norm) => (σ1.setLocal x (env.retOfT obj meth vs), .norm)
+          | r => r
+  -- [deepTr] end
 def execB (env : Env) (self : SelfCall) (fuel : Nat) : List Stmt → St → St × Flow
   | [], σ => (σ, .norm)
   | s :: r, σ => andThen (execS env self fuel s σ) (execB env self fuel r)
